@@ -482,13 +482,19 @@ class Drawing:
         defaultstyles = diagram.get_style(self.diagram_class, styling._class)
 
         def getstyleattr(sobj: object, attr: str) -> t.Any:
+            if isinstance(sobj, dict):
+                return sobj.get(attr) or defaultstyles.get(
+                    styling._style_name(attr)
+                )
             return getattr(sobj, attr, None) or defaultstyles.get(
                 styling._style_name(attr)
             )
 
+        # Read the marker names from the instance dict, as
+        # ``Styling.__getattribute__`` turns them into ``url(...)`` references.
         markers = (
-            getstyleattr(super(), "marker-start"),
-            getstyleattr(super(), "marker-end"),
+            getstyleattr(vars(styling), "marker-start"),
+            getstyleattr(vars(styling), "marker-end"),
         )
         for marker in markers:
             if marker is None:
